@@ -258,15 +258,39 @@ def main(t, sd):
     for n in range(1, NT + 2):
         for j in range(n): tasks.append((mir, n, j, None))
     workers = int(os.environ.get('VERIF_JOBS', '16'))
-    res = []
+    res = []; sres = []
+    NS = {'quick': 6, 'thorough': 8}[t]
     with ProcessPoolExecutor(workers) as ex:
         futs = [ex.submit(shard13, a) for a in tasks]
+        sf = [ex.submit(c12.check_string_job, (mir, k)) for k in range(2, NS + 1)]
         for f in as_completed(futs): res.append(f.result())
+        for f in sf: sres.append(f.result())
     viol = []; inconc = []; paths = steps = queries = forks = 0; stime = 0.0; fns = set(); mods = set(); samples = []; wits = []
     for r in res:
         wits += r.get('wits', [])
         paths += r['paths']; steps += r['steps']; queries += r['queries']; stime += r['solver_time']; forks += r['forks']
         fns |= set(r['fns']); mods |= set(r['models']); viol += r['viol']; inconc += r['inconclusive']; samples += r['samples']
+    # symbols with escaped quotes and backslashes: check_string over symbolic characters, functional oracle
+    spaths = 0
+    for r in sres:
+        spaths += r['paths']; steps += r['steps']; queries += r['queries']; stime += r['solver_time']; fns |= set(r['fns']); mods |= set(r['models']); inconc += r['inconclusive']
+        for v in r['viol']:
+            if v['kind'] != 'string-escape-diagnostics': continue
+            full = "token A=" + v['text'] + ";\nstart s;\ns: A;\n"
+            o = c12.fe_native_run(exe, ['TEXT ' + full.encode().hex()])[0]
+            # natively: count the lexer-level 'invalid escape sequence' diagnostics via the spans that lie inside the literal
+            lit_lo, lit_hi = 8, 8 + len(v['text'].encode())
+            got = [sp for sp in o.get('spans', []) if lit_lo <= sp[0] and sp[1] <= lit_hi and sp != [lit_lo, lit_hi]]
+            t_ = v['text']; exp = 0; k = 1; 
+            while k < len(t_) - 1:
+                if t_[k] == '\\':
+                    if t_[k + 1] not in "'\\": exp += 1
+                    k += 2
+                else: k += 1
+            if len(got) != exp:
+                viol.append(dict(kind='symbol-escape-diagnostics', detail=v['detail'] + f' (native: {len(got)} diagnostics inside the literal, expected {exp})', witness=[], confirmed=True, native=o, text=full))
+            else:
+                inconc.append(f"check_string counterexample did not reproduce natively: {v['text']!r} native spans {o.get('spans')}")
     # native confirmation: the witness is lexed and parsed by the real front end; syntax diagnostics / tree shape are compared
     known = load_known(); reported = 0; seen = set(); validated = 0; mism = []
     def native_view_idx(o):
@@ -298,6 +322,7 @@ def main(t, sd):
             if nv is None or {k: nv[k] for k in ('tokens', 'rules', 'starts')} != ev_:
                 mism.append(f"typed view differs from the native run for {[fp0.tokens[k] for k in w['witness']]}: engine {ev_} native {nv}")
     for v in viol:
+        if 'text' in v: continue
         line = ' '.join(fp0.tokens[k] for k in v['witness'])
         o = c12.fe_native_run(exe, [line])[0]
         v['native'] = o if len(json.dumps(o)) < 1500 else '...'
@@ -332,14 +357,14 @@ def main(t, sd):
         seen.add(v['kind'])
         import hashlib
         d = os.path.join(VERIF, 'replays', 'C13'); os.makedirs(d, exist_ok=True)
-        body = dict(property='C13', kind=v['kind'], detail=v['detail'], tokens=[fp0.tokens[k] for k in v['witness']], native=v.get('native'))
+        body = dict(property='C13', kind=v['kind'], detail=v['detail'], tokens=[fp0.tokens[k] for k in v['witness']], text=v.get('text'), native=v.get('native'))
         p = os.path.join(d, hashlib.sha256(json.dumps(body, sort_keys=True, default=str).encode()).hexdigest()[:16] + '.json')
         json.dump(body, open(p, 'w'), indent=1, default=str)
         print(f"VIOLATION property=C13 replay={p}"); print(f"   {v['kind']}: {v['detail'][:400]}")
         reported += 1
     cov = dict(states=max(1, paths + forks), transitions=max(1, steps), traces_validated_against_impl=validated, samples=samples[:8] or [{'note': 'none'}],
                exhaustive=not inconc, explanation='states = leaves + fork nodes of the decision trees (per sentence length and trivia position); transitions = MIR statements executed incl. the ast.rs accessors',
-               bounds=dict(max_tokens_no_trivia=N, max_tokens_with_one_trivia=NT + 1, tier=t), sentence_paths=paths, solver_queries=queries, solver_time_s=round(stime, 3),
+               bounds=dict(max_tokens_no_trivia=N, max_tokens_with_one_trivia=NT + 1, symbol_chars_max=NS, tier=t), sentence_paths=paths, check_string_paths=spaths, solver_queries=queries, solver_time_s=round(stime, 3),
                functions_encoded=sorted(fns), std_models=sorted(mods), inconclusive=inconc[:40], engine_native_mismatches=mism[:20], violations_reported=reported)
     ev = dict(property_id='C13', tier=t, seed=sd, level='model_checking', coverage=cov, wall_s=round(time.time() - t0, 2), violations=reported,
               assumptions=['PARTIAL: tokens are given (lexer intercepted): names, numbers, symbols are compared as token positions',
